@@ -302,6 +302,29 @@ func init() {
 			}
 			// discovery resumes after splitTracker.LastAssigned()
 			disc := r.P.FuncObj("connectors/kinesis", "(*SourceSplitter).discoverShards")
+			// ... and in Start that is still the restored value: nothing that advances the tracker's
+			// resume point (TrackAssigned, reached through assignShards) runs between LoadSplits and
+			// the listing, or the listing restarts below the checkpointed id and finished shards
+			// come back
+			writers := r.reachingWriters(lastID, st.Pkg.PkgPath)
+			delete(writers, load.Obj)
+			r.Sim(st.Decl, st.Name(), &pathsim.Spec{Step: func(c *pathsim.Ctx, s pathsim.State, ev *pathsim.Event) []pathsim.State {
+				if ev.Kind != pathsim.EvCall || ev.Call == nil {
+					return nil
+				}
+				fn := c.P.CalleeFunc(c.Info, ev.Call)
+				switch {
+				case fn == load.Obj:
+					s.A = 1
+					return []pathsim.State{s}
+				case fn == disc:
+					s.A = 2
+					return []pathsim.State{s}
+				case fn != nil && writers[fn.Origin()] && s.A == 1:
+					c.Violate(ev.Pos, "[resume-point-overwritten] "+prog.ShortFuncName(fn)+" advances the tracker's last-assigned id between LoadSplits and the first shard listing: the listing starts below the checkpointed resume point and shards finished before the checkpoint are listed and assigned again")
+				}
+				return nil
+			}})
 			nDisc := 0
 			for _, u := range r.P.Uses(disc) {
 				path := r.P.PathTo(u.File, u.Ident.Pos(), u.Ident.Pos())
